@@ -36,6 +36,9 @@ def check(prop, tier, seed, replay=None):
                 for name, st in variants:
                     if any(s > C.hi(u) for s in st): continue
                     cases.append((G.line(i), C.fmt(ext), C.fmt(st), name, kind, list(ext), list(st)))
+    if not replay:
+        for i in G.STATIC:      # conversions inside a static initialiser with constant operands
+            cases.append(('c20s %s %s k=%d_%d' % (i[0], i[1], i[2], i[3]), '3,4', '%d,%d' % (i[2], i[3]), 'static-init', i[0], [3, 4], [i[2], i[3]]))
     def lines(extra=''): return ['%s ext=%s str=%s%s' % (c[0], c[1], c[2], extra) for c in cases]
     adm = [x == 'ok 1' for x in C.driver([l + ' adm' for l in lines()])]
     m_dbg = [canon(x) for x in C.driver(lines())]; m_nd = [canon(x) for x in C.driver(lines(' ndebug=1'))]
